@@ -310,6 +310,8 @@ var fixedPrograms = []struct {
 	{"wide-instr-div96", "package main\n\nfunc main(a, b uint96) uint96 {\n\treturn a / (b | 1)\n}\n", nil, []string{"79228162514264337593543950335", "12345678901234567890123"}, []string{"3", "987654321987"}},
 	{"wide-instr-mul256", "package main\n\nfunc main(a, b uint256) uint256 {\n\treturn a * b\n}\n", nil, []string{"115792089237316195423570985008687907853269984665640564039457584007913129639935", "12345678901234567890123456789012345678901234567890"}, []string{"115792089237316195423570985008687907853269984665640564039457584007913129639935", "98765432109876543210987654321"}},
 	{"wide-instr-mod128", "package main\n\nfunc main(a, b uint128) uint128 {\n\treturn a % (b | 1)\n}\n", nil, []string{"340282366920938463463374607431768211455"}, []string{"18446744073709551629"}},
+	{"zero-width-evaluator", "package main\n\nfunc main(g uint16, e [0]byte) (uint8, uint16) {\n\treturn uint8(g >> 3), g + 1\n}\n", nil, []string{"65535", "37"}, []string{"0", "0"}},
+	{"zero-width-garbler", "package main\n\nfunc main(g [0]byte, e uint8) (uint8, bool) {\n\treturn e ^ 0x5a, e > 7\n}\n", nil, []string{"0", "0"}, []string{"200", "5"}},
 	{"loop", "package main\n\nfunc main(a, b uint8) uint8 {\n\tvar sum uint8\n\tfor i := 0; i < 4; i++ {\n\t\tt := (a >> i) & 1\n\t\tsum = sum + t*b\n\t}\n\treturn sum\n}\n", nil, []string{"13", "255"}, []string{"7", "3"}},
 }
 
